@@ -57,7 +57,7 @@ Proof. unfold drop, len. rewrite skipn_length. lia. Qed.
 Lemma le_val_app a b : le_val (a ++ b) = le_val a + 256 ^ len a * le_val b.
 Proof.
   induction a as [|x a IH].
-  - cbn [app le_val]. rewrite len_nil. cbn. lia.
+  - cbn [app le_val]. change (len (@nil byte)) with 0. rewrite N.pow_0_r. lia.
   - cbn [app le_val]. rewrite IH, len_cons.
     replace (1 + len a) with (N.succ (len a)) by lia. rewrite N.pow_succ_r'. lia.
 Qed.
@@ -126,9 +126,9 @@ Proof.
     destruct (bN b + 256 * le_val r =? 0) eqn:E; [apply N.eqb_eq in E; contradiction|].
     pose proof (bN_lt b).
     replace ((bN b + 256 * le_val r) mod 256) with (bN b)
-      by (symmetry; rewrite N.add_comm, N.mul_comm, N.mod_add by lia; apply N.mod_small; lia).
+      by lia.
     replace ((bN b + 256 * le_val r) / 256) with (le_val r)
-      by (symmetry; rewrite N.add_comm, N.mul_comm, N.div_add_l by lia; rewrite N.div_small by lia; lia).
+      by lia.
     rewrite Nb_bN. f_equal.
     destruct r as [|y r'].
     + destruct f; reflexivity.
